@@ -634,8 +634,108 @@ func vfRunC10Err(ctx *vfCtx, c vfCaseC10Err) {
 
 var vfC10ErrOps = []string{"Mkdir", "Rename", "PosixRename", "RemoveDirectory", "Symlink", "Chmod", "Open", "OpenWrite", "Create", "Stat", "Lstat", "ReadLink", "ReadDir", "StatVFS"}
 
+// ---- (D): attributes as given -----------------------------------------------------------------
+//
+// Whatever os.FileInfo a handler's lister hands out - bare, with the FileInfoUidGid / FileInfoExtendedData
+// callbacks, with a *syscall.Stat_t behind Sys(), or several of these at once - must reach a real Client as
+// the attribute block the documentation promises (size, mode, times always; owner from the callbacks, else
+// from the Stat_t, else absent; extended data when present), by every route a FileInfo travels: STAT, LSTAT,
+// FSTAT and a READDIR entry.
+
+type vfCaseC10Attrs struct {
+	FI    vfFI
+	Via   string // Stat | Lstat | Fstat | ReadDir
+	Alloc bool
+}
+
+func vfRunC10Attrs(ctx *vfCtx, c vfCaseC10Attrs) {
+	baseline := vfPkgGoroutineIDs()
+	sftp.VfResetGlobals()
+	d := c.FI
+	d.Name = []byte("x")
+	h := newVfH()
+	h.addDir("/d")
+	h.addFile("/d/x", []byte("content"))
+	fi := d.FileInfo()
+	h.infoOverride = map[string]os.FileInfo{"/d/x": fi}
+	h.listOverride = map[string][]os.FileInfo{"/d": {fi}}
+	srv, err := vfStartSrv(vfSrvCfg{Kind: "rs", Alloc: c.Alloc}, "", h)
+	if err != nil {
+		ctx.Failf("harness/server", "%v", err)
+	}
+	cl, err := sftp.NewClientPipe(srv.link.Client, srv.link.Client)
+	if err != nil {
+		ctx.Failf("harness/client", "%v", err)
+	}
+	var got os.FileInfo
+	dn, res := vfCall(func() (string, error) {
+		var err error
+		switch c.Via {
+		case "Stat":
+			got, err = cl.Stat("/d/x")
+		case "Lstat":
+			got, err = cl.Lstat("/d/x")
+		case "Fstat":
+			var f *sftp.File
+			if f, err = cl.Open("/d/x"); err == nil {
+				got, err = f.Stat()
+				f.Close()
+			}
+		default:
+			var fis []os.FileInfo
+			if fis, err = cl.ReadDir("/d"); err == nil {
+				if len(fis) != 1 {
+					return "", fmt.Errorf("listing has %d entries, want 1", len(fis))
+				}
+				got = fis[0]
+			}
+		}
+		return "", err
+	})
+	if !vfAwait(ctx, dn, c.Via) {
+		ctx.Failf("C10/attrs/hang", "%s never returns\n%s", c.Via, vfDumpRelevant())
+	}
+	if res.Panic != nil {
+		ctx.Failf("panic/"+vfPanicSite([]byte(res.Stack)), "%v\n%s", res.Panic, vfTrimStack([]byte(res.Stack)))
+	}
+	if res.Err != nil {
+		ctx.Failf("C10/attrs/error/"+c.Via, "%s of an entry the handler reports failed: %v", c.Via, res.Err)
+	}
+	fs, ok := got.Sys().(*sftp.FileStat)
+	if !ok {
+		ctx.Failf("C10/attrs/no-filestat", "%s: Sys() is %T", c.Via, got.Sys())
+	}
+	want := vfAttrsOfFI(d)
+	if want.Flags&vfAttrUIDGID == 0 {
+		want.UID, want.GID = 0, 0
+	}
+	g := vfAttrsOfFileStat(want.Flags|vfAttrUIDGID, fs)
+	w := want
+	w.Flags |= vfAttrUIDGID
+	if a, b := vfMustJSON(vfNormAttrs(g)), vfMustJSON(vfNormAttrs(&w)); !bytes.Equal(a, b) {
+		ctx.Failf("C10/attrs-not-as-given/"+c.Via, "the handler's entry (owner callbacks %v uid=%d gid=%d; Stat_t %v uid=%d gid=%d; %d extended) reached the client through %s as %s, want %s",
+			d.HasOwner, d.UID, d.GID, d.SysStat, d.SUID, d.SGID, len(d.Ext), c.Via, a, b)
+	}
+	ctx.Class(fmt.Sprintf("via=%s owner=%v stat_t=%v ext=%v", c.Via, d.HasOwner, d.SysStat, len(d.Ext) > 0))
+	if d.HasOwner || d.SysStat || len(d.Ext) > 0 {
+		ctx.NonTrivial()
+	}
+	dc, _ := vfCall(func() (string, error) { return "", cl.Close() })
+	vfAwait(ctx, dc, "Close")
+	if !vfAwait(ctx, srv.done, "Serve") {
+		ctx.Failf("C10/attrs/serve-hangs", "Serve never returns")
+	}
+	vfCheckNoLeak(ctx, "C10/attrs/leak", baseline)
+}
+
 func TestVerifC10(t *testing.T) {
 	t.Run("wire", func(t *testing.T) { vfDriveSub(t, "wire", vfProp[vfCaseC10]{ID: "C10", Gen: vfGenC10, Run: vfRunC10}) })
+	t.Run("attrs", func(t *testing.T) {
+		defer vfScaleChecks(4)()
+		vfDriveSub(t, "attrs", vfProp[vfCaseC10Attrs]{ID: "C10", Run: vfRunC10Attrs, Gen: func(rt *rapid.T) vfCaseC10Attrs {
+			return vfCaseC10Attrs{FI: vfGenFI(rt, "fi"), Via: rapid.SampledFrom([]string{"Stat", "Lstat", "Fstat", "ReadDir"}).Draw(rt, "via"), Alloc: rapid.Bool().Draw(rt, "alloc")}
+		}})
+	})
 	t.Run("errors", func(t *testing.T) {
 		// the catalogue is finite: enumerate operation x error x wrapper
 		vfEnumerate(t, "errors", vfProp[vfCaseC10Err]{ID: "C10", Run: vfRunC10Err}, func(yield func(vfCaseC10Err) bool) {
